@@ -410,15 +410,6 @@ theorem offset_div (r bc : Nat) (hbc : 0 < bc) :
   have : (((68 + r * bc : Nat) : Int) - 68) = (r : Int) * (bc : Int) := by push_cast; ring
   rw [this, Int.mul_ediv_cancel _ (by omega)]
 
-/-- a well laid out data file: `R` scan records pointing at `R` profile records of `k` values,
-`SpectrumOffset = 68 + r·ByteCount` (the byte position of record `r` behind the 68-byte header) -/
-structure Layout {α : Type} (R k bc : Nat) (scans : List ScanRec) (profile : List (List α)) : Prop where
-  nprofile : profile.length = R
-  nscans : scans.length = R
-  width : ∀ row ∈ profile, row.length = k
-  offs : ∀ r (hr : r < scans.length), scans[r].off = 68 + r * bc ∧ scans[r].bc = bc
-  pos : 0 < bc
-
 theorem decodeMass_getElem {α : Type} {R k bc : Nat} {scans : List ScanRec} {profile : List (List α)}
     (L : Layout R k bc scans profile) (r j : Nat) (hr : r < R) (hj : j < k) :
     (decodeMass k scans profile (j + 1))[r]? = some ((profile[r]?).bind (fun row => row[j]?)) := by
@@ -692,9 +683,6 @@ theorem count_joinFields (fs : List Name) (hne : fs ≠ []) (h : ∀ f ∈ fs, '
       rw [List.count_append, List.count_cons_self, this, List.count_eq_zero.mpr (h f (by simp))]
       simp
 
-/-- white space at the ends of a line as genfromtxt's splitter strips it -/
-def lineWs (c : Char) : Bool := c = ' ' || c = '\r' || c = '\n'
-
 theorem dropWhile_all {p : Char → Bool} (e : Name) (h : ∀ c ∈ e, p c = true) (rest : Name) :
     (e ++ rest).dropWhile p = rest.dropWhile p := by
   induction e with
@@ -726,19 +714,6 @@ theorem stripChars_line (p : Char → Bool) (x e : Name) (hx : x ≠ [])
         rw [← this]; simp [hxr]
       rw [List.dropWhile_cons_of_neg (by rw [ha]; simp [hlast])]
   rw [h2, List.reverse_reverse]
-
-/-- a per-line CSV export that `csv_valid_lines` + `genfromtxt` read field by field -/
-structure CsvWF (c : CsvFile) : Prop where
-  eol_blank : ∀ ch ∈ c.eol, lineWs ch = true
-  header_ne : c.header ≠ []
-  nocomma : ∀ fs ∈ c.header :: c.rows, ∀ f ∈ fs, ',' ∉ f
-  width : ∀ r ∈ c.rows, r.length = c.header.length
-  ends : ∀ fs ∈ c.header :: c.rows, ∃ h : joinFields fs ≠ [],
-    lineWs ((joinFields fs).head h) = false ∧ lineWs ((joinFields fs).getLast h) = false
-  pre : ∀ l ∈ c.pre, startsWithTime (l ++ c.eol) = false
-  head : startsWithTime (joinFields c.header ++ c.eol) = true
-  foot : ∀ l ∈ c.foot, countCommas (l ++ c.eol) ≠ c.header.length - 1 ∧ startsWithTime (l ++ c.eol) = false
-  parse : ∀ r ∈ c.rows, ∀ f ∈ r, ∃ q, parseDec f = some q
 
 theorem eol_count {c : CsvFile} (W : CsvWF c) : countCommas c.eol = 0 := by
   unfold countCommas
@@ -844,10 +819,10 @@ theorem filterMap_parse_getElem (r : List Name) (h : ∀ f ∈ r, ∃ q, parseDe
       exact ih (fun g hg => h g (by simp [hg])) j'
 
 theorem csvCols_eq_spec (ncol nscan : Nat) (c : CsvFile) (hparse : ∀ r ∈ c.rows, ∀ f ∈ r, ∃ q, parseDec f = some q)
-    (hwidth : ∀ r ∈ c.rows, r.length = ncol) :
+    (hwidth : ∀ r ∈ c.rows, r.length = ncol) (hrows : c.rows.length = nscan) :
     csvLineSpec ncol nscan (some c) = some (csvCols ncol nscan (some (tableOf c))) := by
-  unfold csvLineSpec csvCols transpose tableOf
-  simp only
+  unfold csvLineSpec csvCols transpose tableOf csvRows
+  simp only [List.length_map, hrows, if_true]
   apply allSome_map_of_forall
   intro j hj
   rw [List.map_map]
